@@ -16,8 +16,10 @@ import (
 )
 
 var (
-	errInvalidMagic        = errors.New("invalid SIF magic")
-	errIncompatibleVersion = errors.New("incompatible SIF version")
+	errInvalidMagic           = errors.New("invalid SIF magic")
+	errIncompatibleVersion    = errors.New("incompatible SIF version")
+	errInvalidDescriptorCount = errors.New("invalid descriptor count")
+	errInvalidDescriptor      = errors.New("invalid descriptor")
 )
 
 // isValidSif looks at key fields from the global header to assess SIF validity.
@@ -62,15 +64,26 @@ func loadContainer(rw ReadWriter) (*FileImage, error) {
 		return nil, err
 	}
 
-	// Read descriptors.
-	f.rds = make([]rawDescriptor, f.h.DescriptorsTotal)
-	err = binary.Read(
-		io.NewSectionReader(rw, f.h.DescriptorsOffset, f.h.DescriptorsSize),
-		binary.LittleEndian,
-		&f.rds,
-	)
-	if err != nil {
-		return nil, fmt.Errorf("reading descriptors: %w", err)
+	if f.h.DescriptorsTotal < 0 {
+		return nil, errInvalidDescriptorCount
+	}
+
+	// Read descriptors one at a time, so that memory use is bounded by the size of the image
+	// rather than by the descriptor count recorded in the global header.
+	sr := io.NewSectionReader(rw, f.h.DescriptorsOffset, f.h.DescriptorsSize)
+	for i := int64(0); i < f.h.DescriptorsTotal; i++ {
+		var rd rawDescriptor
+		if err := binary.Read(sr, binary.LittleEndian, &rd); err != nil {
+			return nil, fmt.Errorf("reading descriptors: %w", err)
+		}
+
+		// A negative offset or size cannot describe a data object, and is not safe to pass on
+		// to io.SectionReader.
+		if rd.Used && (rd.Offset < 0 || rd.Size < 0) {
+			return nil, errInvalidDescriptor
+		}
+
+		f.rds = append(f.rds, rd)
 	}
 
 	f.populateMinIDs()
